@@ -344,6 +344,9 @@ func (ex *Exec) specBinary(x EBinary, env *SpecEnv) Val {
 	case "-":
 		return Scalar{App(ta.Sort, "-", ta, tb), ty}
 	case "*":
+		if ta.Sort == SInt {
+			return Scalar{ex.mulTerm(ta, tb), ty}
+		}
 		return Scalar{App(ta.Sort, "*", ta, tb), ty}
 	case "/":
 		if ta.Sort == SReal {
@@ -543,6 +546,17 @@ func (ex *Exec) specQuant(x EQuant, env *SpecEnv) Val {
 		cur = cur.with(qv.Name, Scalar{bv, t})
 	}
 	body := ex.evalBool(x.Body, cur)
+	if x.Forall && len(x.Triggers) > 0 {
+		var pats [][]Term
+		for _, grp := range x.Triggers {
+			var ts []Term
+			for _, te := range grp {
+				ts = append(ts, ex.scalar(ex.evalSpec(te, cur)))
+			}
+			pats = append(pats, ts)
+		}
+		return Scalar{ForallPat(bounds, Implies(And(guards...), body), pats), types.Typ[types.Bool]}
+	}
 	if x.Forall {
 		return Scalar{Forall(bounds, Implies(And(guards...), body)), types.Typ[types.Bool]}
 	}
@@ -619,6 +633,18 @@ func (ex *Exec) specCall(x ECall, env *SpecEnv) Val {
 			ex.specFail("%v", err)
 		}
 		return Scalar{Eq(IfDyn(ex.scalar(argv(0))), ex.vc.typeID(t)), boolT}
+	case "implements":
+		need(2)
+		te, err := exprToType(x.Args[1])
+		if err != nil {
+			ex.specFail("%v", err)
+		}
+		t, err := ex.prog.lookupType(te, env.pkg)
+		if err != nil {
+			ex.specFail("%v", err)
+		}
+		ex.noteIface(t)
+		return Scalar{ex.implementsTerm(IfDyn(ex.scalar(argv(0))), t), boolT}
 	case "dyn":
 		need(1)
 		return Scalar{IfDyn(ex.scalar(argv(0))), intT}
